@@ -1,5 +1,7 @@
 import SekaiProofs.Lemmas.IdentWF
 import SekaiProofs.Lemmas.IdentVerif
+import Sekai.Gen.Keys
+import SekaiProofs.Lemmas.Keys
 /-! # C16 — Identity registry: unique keys stay unique, only owners edit, tips escrowed once
 
 Theorems about `Sekai.Ident` (the executable mirror of `x/gov/keeper/identity_registrar.go` and of the callers that
@@ -544,5 +546,13 @@ example :
     (reimport exampleState).map (fun S' => S'.idx.length) = some 2 ∧
     (reimport exampleState).map (fun S' => (S'.lastRecordId, S'.lastReqId)) = some (9, 4) ∧
     (reimport exampleState).map (fun S' => S'.byReq) = some [(0, 4)] := by decide
+
+/-! ### Key spaces of the stores this model keeps in separate maps (table `Gen.Keys`)
+
+The model keeps each record kind of a module in a field of its own; the module keeps them in ONE store under byte prefixes.
+No prefix extends another (checked on the regenerated table), so by `Sekai.Keys.keys_of_different_kinds_differ` a key of one
+kind is never a key of another kind. -/
+
+theorem gov_key_spaces_disjoint : Sekai.Keys.disjoint Sekai.Gen.Keys.stores "gov" = true := by decide +kernel
 
 end Sekai.Props.C16
